@@ -32,3 +32,12 @@ Print Assumptions C20_doubling_table.
 Theorem C20_wrap_exact : forall n, calls (nest Wrap n) = size (nest Wrap n).
 Proof. exact C20_linear_wrap. Qed.
 Print Assumptions C20_wrap_exact.
+
+(* the regenerated wrapper traversal (tools/target2v.py) terminates on every document: over finitely many nodes a fuel above their number is never
+   exhausted, whatever the identifier references do (cycles included) — the outcome is a set, ValueError or the resolver's exception *)
+From Dyn Require Import TargetGen TargetProps.
+Close Scope string_scope. Open Scope list_scope.
+Theorem C20_target_total : forall (w : world) (univ : list (wN w)),
+  (forall n, In n univ) -> forall t sc st, exists r s', r <> RFuel /\ target w (S (List.length univ)) t sc ([], st) = (r, s').
+Proof. exact target_total. Qed.
+Print Assumptions C20_target_total.
